@@ -116,13 +116,19 @@ def entry_model(e, m):
     return model_pytree_check(m, ms, e.get("structure"), gt.from_json(e["tree"]))
 
 
+def kept(case):
+    """number of leading parameters the call passes (the last `omit` of the `ndefaults` defaulted trailing parameters are left out)"""
+    n = len(case["params"])
+    return n - min(case.get("omit", 0), case.get("ndefaults", 0), n)
+
+
 def walk(case):
     """Sequential reference walk.  -> dict(stage, index, allowed, bindings(ctx before failure), structs, tentative, rolled_back_union)"""
     m = dl.MCtx()
     struct_strs = {}
     rolled = False
     # arguments left to their defaults are neither checked nor bound (typecheckers do not check default values)
-    keep = len(case["params"]) - min(case.get("omit", 0), case.get("ndefaults", 0))
+    keep = kept(case)
     seq = [("param", i, p) for i, p in enumerate(case["params"]) if i < keep]
     if case["ret"] is not None:
         seq.append(("return", None, case["ret"]))
@@ -175,14 +181,14 @@ def check_case(ctx, case):
     desc = {"params": [(p["name"], p["kind"], gc.spec_of(p) if p["kind"] not in ("cfg", "unrepr", "fickle") else p["kind"], p.get("structure"), p.get("shape", p.get("tree"))) for p in case["params"]],
             "ret": (gc.spec_of(case["ret"]), case["ret"]["shape"]) if case["ret"] else None, "flag": case["flag"],
             "defaults": [case.get("ndefaults", 0), case.get("omit", 0)]}
-    keep_n = len(case["params"]) - min(case.get("omit", 0), case.get("ndefaults", 0))
+    keep_n = kept(case)
     fickle = any(p["kind"] == "fickle" for p in case["params"][:keep_n])  # (an omitted, defaulted parameter is never looked at)
     for ck in ("typeguard", "beartype"):
         fn, ns = build(case, ck, case["fname"])
         ns["__ret"][0] = entry_value(case["ret"]) if case["ret"] else None
         for style in ("pos", "kw"):
             vals = [entry_value(p, ns) for p in case["params"]]
-            keep = len(vals) - min(case.get("omit", 0), case.get("ndefaults", 0))  # the last `omit` (defaulted) arguments are not passed
+            keep = kept(case)  # the last `omit` (defaulted) arguments are not passed
             args, kwargs = (vals[:keep], {}) if style == "pos" else ([], {p["name"]: v for p, v in list(zip(case["params"], vals))[:keep]})
             jaxtyping.config.update("jaxtyping_remove_typechecker_stack", case["flag"])
             _FickleMeta.asked = 0
